@@ -160,12 +160,79 @@ FORMS = ['$v', '${v}', '${v-w}', '${v:-w}', '${v+w}', '${v:+w}', '${v=w}', '${v:
          '${v#a}', '${v%a}', '${v/a/b}', '${v^^}', '${v,,}', '${v@Q}', '${v@U}', '${!v}', '${v[0]}', '${v[1]}', '${v[@]}', '${v[*]}',
          '"${v[@]}"', '${#v[@]}', '${#v[0]}', '${!v[@]}', '${v[@]:0:1}', '${v[@]-w}', '${v[k]}', '$((v))', '$((v+1))', '$1', '${1}',
          '${1-w}', '$@', '$*', '"$@"', '${@:1}', '$#', '${#1}', '${!1}', '${v[@]@Q}', '${v[0]-w}', '${#@}', '${*:1:1}', '$v$v', '${v:-$v}']
+# forms added with the Lean model of the decision (Model/Nounset.lean): lists under `?`/`=`, special parameters, subscripts
+# that are words, operand words that are expansions, operators applied to a reference
+FORMS += ['${v[@]#a}', '${v[*]:-w}', '${v[@]?w}', '${v[@]:?w}', '${v[*]?w}', '${@?w}', '${*:?w}', '${1?w}', '${1:?w}', '${1=w}', '${@=w}',
+          '${!v@}', '$?', '$-', '$$', '$0', '${#}', '${#*}', '${1:0:1}', '${@:0:1}', '${v[1]-w}', '${v[1]+w}', '${v[1]?w}', '${v[k]-w}',
+          '$((v[1]))', '$((k))', '${v:-$k}', '${v:+$k}', '${v?$k}', '${v=$k}', '${v[1]:0:1}', '${v[0]:k}', '${#v[1]}',
+          '${!v#a}', '${!v:0:1}', '${!v@Q}']
+# forms whose brush/bash difference is a recorded finding (C03-10 … C03-17); all three placements in every state, because a
+# command that is only abandoned looks like one that ran when it stands on a line of its own
+ATTR_FORMS = ('${v@a}', '${v@A}', '${v[0]@a}')
+INDIRECT_LIST_FORMS = ('${!@}', '${!*}')
+INDIRECT_TEST_FORMS = ('${!v-w}', '${!v+w}', '${!v?w}', '${!1-w}')
+CLAUSE_FORMS = list(ATTR_FORMS) + ['$!'] + list(INDIRECT_LIST_FORMS) + list(INDIRECT_TEST_FORMS) + ['${v[@]=w}', '${v[-1]}', '${v:1:k}', '${#v[k]}']
+FORMS += CLAUSE_FORMS
+# rows compared brush-vs-bash only: the form is outside the Lean model (`@a`/`@A`, `$!`, `${!ref-w}`, negative subscripts)
+NO_MODEL_FORMS = set(ATTR_FORMS) | {'$!', '${v[-1]}'} | set(INDIRECT_TEST_FORMS)
+# rows where the model is compared with brush but the bash reference is not established (its guard excludes them)
+NO_SPEC_FORMS = set(INDIRECT_LIST_FORMS) | {'${v:1:k}'}
 ARG_FORMS = ['$1', '${1}', '$@', '$*', '"$@"', '${@:1}', '$2', '${2-w}', '${#2}', '${*:2}']
-LEN_CLAUSE_FORMS = ('${#v[@]}', '${#v[0]}')
+LEN_CLAUSE_FORMS = ('${#v[@]}', '${#v[0]}', '${#v[1]}')
+ELEM_LEN_FORMS = ('${#v[0]}', '${#v[1]}')
+INDIRECT_VALUE_FORMS = ('${!v}', '${!v#a}', '${!v:0:1}', '${!v@Q}')
+
+# ---- the same table in the wire format of the Lean driver (Drv/C03.lean, request `nounset …`)
+_W1 = lambda e: "W 1 " + e
+_T = lambda op, colon, p, w="wl w": "t %s %d %s %s" % (op, colon, p, w)
+NS_WIRE = {
+    '$v': _W1("v pl 0 n v"), '${v}': _W1("v pl 0 n v"),
+    '${v-w}': _W1(_T("-", 0, "n v")), '${v:-w}': _W1(_T("-", 1, "n v")), '${v+w}': _W1(_T("+", 0, "n v")), '${v:+w}': _W1(_T("+", 1, "n v")),
+    '${v=w}': _W1(_T("=", 0, "n v")), '${v:=w}': _W1(_T("=", 1, "n v")), '${v?w}': _W1(_T("?", 0, "n v")), '${v:?w}': _W1(_T("?", 1, "n v")),
+    '${#v}': _W1("len n v"), '${v:0:1}': _W1("v sub 0 n v L 0 + L 1"), '${v#a}': _W1("v rm 0 n v"), '${v%a}': _W1("v rm 0 n v"),
+    '${v/a/b}': _W1("v rep 0 n v"), '${v^^}': _W1("v cm 0 n v"), '${v,,}': _W1("v cm 0 n v"), '${v@Q}': _W1("v xf 0 n v"), '${v@U}': _W1("v xf 0 n v"),
+    '${!v}': _W1("v pl 1 n v"), '${v[0]}': _W1("v pl 0 i v N 0"), '${v[1]}': _W1("v pl 0 i v N 1"),
+    '${v[@]}': _W1("v pl 0 a v @"), '${v[*]}': _W1("v pl 0 a v *"), '"${v[@]}"': _W1("v pl 0 a v @"),
+    '${#v[@]}': _W1("len a v @"), '${#v[0]}': _W1("len i v N 0"), '${#v[1]}': _W1("len i v N 1"), '${!v[@]}': _W1("keys v"),
+    '${v[@]:0:1}': _W1("v sub 0 a v @ L 0 + L 1"), '${v[@]-w}': _W1(_T("-", 0, "a v @")), '${v[k]}': _W1("v pl 0 i v K k"),
+    '$((v))': _W1("ar V v"), '$((v+1))': _W1("ar ADD V v L 1"), '$1': _W1("v pl 0 p 1"), '${1}': _W1("v pl 0 p 1"), '${1-w}': _W1(_T("-", 0, "p 1")),
+    '$@': _W1("v pl 0 s @"), '$*': _W1("v pl 0 s *"), '"$@"': _W1("v pl 0 s @"), '${@:1}': _W1("v sub 0 s @ L 1 -"), '$#': _W1("v pl 0 s #"),
+    '${#1}': _W1("len p 1"), '${!1}': _W1("v pl 1 p 1"), '${v[@]@Q}': _W1("v xf 0 a v @"), '${v[0]-w}': _W1(_T("-", 0, "i v N 0")),
+    '${#@}': _W1("len s @"), '${*:1:1}': _W1("v sub 0 s * L 1 + L 1"), '$v$v': "W 2 v pl 0 n v v pl 0 n v", '${v:-$v}': _W1(_T("-", 1, "n v", "wr n v")),
+    '${v[@]#a}': _W1("v rm 0 a v @"), '${v[*]:-w}': _W1(_T("-", 1, "a v *")), '${v[@]?w}': _W1(_T("?", 0, "a v @")), '${v[@]:?w}': _W1(_T("?", 1, "a v @")),
+    '${v[*]?w}': _W1(_T("?", 0, "a v *")), '${@?w}': _W1(_T("?", 0, "s @")), '${*:?w}': _W1(_T("?", 1, "s *")), '${1?w}': _W1(_T("?", 0, "p 1")),
+    '${1:?w}': _W1(_T("?", 1, "p 1")), '${1=w}': _W1(_T("=", 0, "p 1")), '${@=w}': _W1(_T("=", 0, "s @")), '${!v@}': _W1("names v"),
+    '$?': _W1("v pl 0 s ?"), '$-': _W1("v pl 0 s -"), '$$': _W1("v pl 0 s $"), '$0': _W1("v pl 0 s 0"), '${#}': _W1("v pl 0 s #"), '${#*}': _W1("len s *"),
+    '${1:0:1}': _W1("v sub 0 p 1 L 0 + L 1"), '${@:0:1}': _W1("v sub 0 s @ L 0 + L 1"), '${v[1]-w}': _W1(_T("-", 0, "i v N 1")),
+    '${v[1]+w}': _W1(_T("+", 0, "i v N 1")), '${v[1]?w}': _W1(_T("?", 0, "i v N 1")), '${v[k]-w}': _W1(_T("-", 0, "i v K k")),
+    '$((v[1]))': _W1("ar X v L 1"), '$((k))': _W1("ar V k"), '${v:-$k}': _W1(_T("-", 1, "n v", "wr n k")), '${v:+$k}': _W1(_T("+", 1, "n v", "wr n k")),
+    '${v?$k}': _W1(_T("?", 0, "n v", "wr n k")), '${v=$k}': _W1(_T("=", 0, "n v", "wr n k")), '${v[1]:0:1}': _W1("v sub 0 i v N 1 L 0 + L 1"),
+    '${v[0]:k}': _W1("v sub 0 i v N 0 V k -"), '${!v#a}': _W1("v rm 1 n v"), '${!v:0:1}': _W1("v sub 1 n v L 0 + L 1"), '${!v@Q}': _W1("v xf 1 n v"),
+    '${!@}': _W1("v pl 1 s @"), '${!*}': _W1("v pl 1 s *"), '${v[@]=w}': _W1(_T("=", 0, "a v @")), '${v:1:k}': _W1("v sub 0 n v L 1 + V k"),
+    '${#v[k]}': _W1("len i v K k"),
+    '$2': _W1("v pl 0 p 2"), '${2-w}': _W1(_T("-", 0, "p 2")), '${#2}': _W1("len p 2"), '${*:2}': _W1("v sub 0 s * L 2 -"),
+    '(( v ))': "AC V v", '(( v + 1 ))': "AC ADD V v L 1", 'let v+1': "LET ADD V v L 1", '[[ v -eq 0 ]]': "CND V v",
+    'for ((i=v; i<1; i++)); do :; done': "FOR ASN i V v", 'a[v]=1': "AIX V v", ': ${s:v}': _W1("v sub 0 n s V v -"),
+    ': ${s:0:v}': _W1("v sub 0 n s L 0 + V v"), ': ${a[v]}': _W1("v pl 0 i a K v"), ': $((v[0]))': _W1("ar X v L 0"), ': $((v++))': _W1("ar INC v"),
+    ': $((v=1))': _W1("ar ASN v L 1"), ': $(( 1 ? 2 : v ))': _W1("ar CND L 1 L 2 V v"), ': $(( 0 && v ))': _W1("ar AND L 0 V v"),
+}
+NS_VALUE = {"unset": None, "null": "S %", "set": "S abc", "arr_empty": "I 0", "arr_set": "I 2 0 a 1 b", "decl_only": "U", "declarr_only": "Ui",
+            "assoc_empty": "Ua", "assoc_set": "A 1 k 1"}
+
+
+def ns_request(placement, state, form, args=()):
+    """the driver request for one row of the table; the scripts also set s=abcdef and a=(1 2)"""
+    vs = [("s", "S abcdef"), ("a", "I 2 0 1 1 2")] if state is not None else []
+    if state is not None and NS_VALUE[state] is not None:
+        vs.append(("v", NS_VALUE[state]))
+    if form in NO_MODEL_FORMS:
+        return None
+    return "C03 nounset %s 1 %d %s %d %s %s" % (placement, len(args), " ".join(args), len(vs), " ".join(n + " " + v for n, v in vs), NS_WIRE[form])
 
 
 STMT_FORMS = ['(( v ))', '(( v + 1 ))', 'let v+1', '[[ v -eq 0 ]]', 'for ((i=v; i<1; i++)); do :; done', 'a[v]=1',
               ': ${s:v}', ': ${s:0:v}', ': ${a[v]}', ': $((v[0]))', ': $((v++))', ': $((v=1))', ': $(( 1 ? 2 : v ))', ': $(( 0 && v ))']
+PL_WIRE = {"same_line": "S", "next_line": "N", "in_func": "F"}
 PLACEMENTS = {
     # the rest of the same line is abandoned by any error, fatal or not: only the other two placements tell them apart
     "same_line": "set -u; s=abcdef; a=(1 2); %(setup)s; %(stmt)s; echo after",
@@ -180,36 +247,89 @@ def nounset(ctx):
         for f in FORMS + STMT_FORMS:
             stmt = f if f in STMT_FORMS else ": " + f
             for pn, pl in PLACEMENTS.items():
-                if pn != "next_line" and f not in STMT_FORMS and st not in ("unset", "null", "arr_empty", "decl_only"):
+                if pn != "next_line" and f not in STMT_FORMS and f not in CLAUSE_FORMS and st not in ("unset", "null", "arr_empty", "decl_only"):
                     continue
-                cases.append((st + "/" + pn, f, True, pl % {"setup": setup, "stmt": stmt}))
+                cases.append((st + "/" + pn, f, True, pl % {"setup": setup, "stmt": stmt}, ns_request(PL_WIRE[pn], st, f)))
     for f in ARG_FORMS:
-        cases.append(("args1", f, True, "set -u; set -- a; : %s; echo after" % f))
-        cases.append(("args1/next_line", f, True, "set -u; set -- a\n: %s\necho after" % f))
-        cases.append(("infunc", f, True, "set -u; g() { : %s; echo after; }; g a" % f))
-        cases.append(("infunc/next_line", f, True, "set -u\ng() { : %s; echo inner; }\ng a\necho after" % f))
+        cases.append(("args1", f, True, "set -u; set -- a; : %s; echo after" % f, ns_request("S", None, f, ["a"])))
+        cases.append(("args1/next_line", f, True, "set -u; set -- a\n: %s\necho after" % f, ns_request("N", None, f, ["a"])))
+        cases.append(("infunc", f, True, "set -u; g() { : %s; echo after; }; g a" % f, ns_request("S", None, f, ["a"])))
+        cases.append(("infunc/next_line", f, True, "set -u\ng() { : %s; echo inner; }\ng a\necho after" % f, ns_request("F", None, f, ["a"])))
 
     def one(c):
         # script-file delivery: `bash -c` reports an unbound variable with status 127, a script with 1
         return lib.run_shell("brush", c[3], mode="file", timeout=20), lib.run_shell("bash", c[3], mode="file", timeout=20)
 
     res = lib.pmap(one, cases)
-    for (st, f, uflag, script), (b, o) in zip(cases, res):
+    answers = iter(lib.run_drv_parallel([c[4] for c in cases if c[4] is not None]))
+    drv = [next(answers) if c[4] is not None else None for c in cases]
+    bits = lambda k: "".join("1" if x else "0" for x in (tuple(k) + (False,))[:3])
+    for (st, f, uflag, script, wire), (b, o), d in zip(cases, res, drv):
         kb = (b["rc"] != 0, "after" in b["out"]) + (("inner" in b["out"],) if "echo inner" in script else ())
         ko = (o["rc"] != 0, "after" in o["out"]) + (("inner" in o["out"],) if "echo inner" in script else ())
         ctx.count(("nounset", st, f, uflag), nontrivial=uflag, bucket="nounset")
-        if kb == ko:
-            continue
         case = {"script": script, "state": st, "form": f, "brush": [b["rc"], b["out"]], "bash": [o["rc"], o["out"]],
                 "brush_stderr": b["err"][-200:]}
+        if d is not None:
+            case.update({"nswire": wire[4:], "model|spec": d})
+            # the tie: Lean model of brush's decision vs brush, Lean reference vs bash
+            parts = [x.split() for x in d.split(" | ")]
+            if len(parts) != 2 or len(parts[0]) != 2 or len(parts[1]) != 2:
+                ctx.violation("the Lean driver did not answer a nounset request: " + d, case, kind="correspondence")
+                continue
+            (mdec, mshown), (sdec, sshown) = parts
+            if mshown != bits(kb):
+                ctx.violation("`set -u`: brush's outcome %s differs from the Lean model's (%s %s)" % (bits(kb), mdec, mshown), case,
+                              kind="property" if kb != ko else "correspondence")
+                continue
+            ctx.impl_validated += 1
+            if sshown != bits(ko) and f not in NO_SPEC_FORMS:
+                ctx.oracle_mismatch += 1          # my transcription of bash is wrong here: never a violation of brush
+                ctx.notes.append("oracle_mismatch (nounset): %s / %s: bash %s, reference %s %s" % (st, f, bits(ko), sdec, sshown))
+        if kb == ko:
+            continue
         tolerant = kb[0] is False and all(x or not y for x, y in zip(kb[1:], ko[1:]))   # brush goes on at least as far as bash
-        if f in LEN_CLAUSE_FORMS and ko != kb and tolerant:
+        base, _, pn = st.partition("/")
+        # what each placement shows of the three decisions (Model/Nounset.lean `shown`)
+        looks = lambda k, dec: bits(k) == {"ok": {"same_line": "010", "next_line": "010", "in_func": "011"},
+                                           "fail": {"same_line": "100", "next_line": "010", "in_func": "010"},
+                                           "abort": {"same_line": "100", "next_line": "100", "in_func": "100"}}[dec].get(pn)
+        valueless = base in ("arr_empty", "decl_only", "declarr_only", "assoc_empty", "assoc_set")
+        if f in ATTR_FORMS and looks(kb, "ok") and looks(ko, "abort"):
+            ctx.known_or_violation("nounset_attributes_tolerated",
+                                   "`${v@a}` / `${v@A}` of a variable without a value goes through under `set -u`; bash: unbound variable", case)
+        elif f == "$!" and looks(kb, "ok") and looks(ko, "abort"):
+            ctx.known_or_violation("nounset_bgpid_tolerated", "`$!` with no background job goes through under `set -u`; bash: unbound variable", case)
+        elif f in INDIRECT_LIST_FORMS and looks(kb, "fail") and looks(ko, "abort"):
+            ctx.known_or_violation("nounset_indirect_of_list_not_fatal",
+                                   "`${!@}` with no arguments only abandons the command; bash ends the shell", case)
+        elif f in INDIRECT_TEST_FORMS and (valueless or f == "${!1-w}") and looks(kb, "fail") and (looks(ko, "ok") or looks(ko, "abort")):
+            ctx.known_or_violation("nounset_indirect_test_of_valueless_ref",
+                                   "`${!ref-w}` / `+` / `?` with a reference that has no value: brush fails to parse the empty reference and "
+                                   "abandons the command; bash applies the operator to an unset parameter", case)
+        elif f == "${v[@]=w}" and base == "assoc_empty" and looks(kb, "fail") and looks(ko, "ok"):
+            ctx.known_or_violation("nounset_assign_default_to_declared_assoc_list",
+                                   "`${A[@]=w}` with A declared -A without a value: brush cannot assign; bash stores under the key @", case)
+        elif f == "${v[-1]}" and base in ("null", "set") and looks(kb, "ok") and looks(ko, "abort"):
+            ctx.known_or_violation("nounset_negative_subscript_of_scalar",
+                                   "`${v[-1]}` of a scalar expands to the scalar; bash: unbound variable", case)
+        elif f == "${v:1:k}" and base == "null" and looks(kb, "abort") and looks(ko, "ok"):
+            ctx.known_or_violation("nounset_substring_length_always_evaluated",
+                                   "the length of `${v:1:k}` is evaluated (unbound k) although the offset is out of range; bash skips it", case)
+        elif f == "${#v[k]}" and base in ("unset", "null", "set", "decl_only", "declarr_only") and looks(kb, "abort") and looks(ko, "fail"):
+            ctx.known_or_violation("nounset_element_length_word_subscript",
+                                   "`${#v[k]}` of a non-array evaluates the subscript (unbound k ends the shell); bash abandons the command "
+                                   "before looking at the subscript", case)
+        elif f == "${#v[k]}" and base == "assoc_empty" and looks(kb, "ok") and looks(ko, "fail"):
             ctx.known_or_violation("nounset_array_length_tolerated",
                                    "under `set -u` brush accepts an expansion that bash rejects as unbound", case)
-        elif f == "${#v[0]}" and st.startswith("unset/") and kb[:2] == (True, False) and ko[:2] == (False, True):
+        elif f in LEN_CLAUSE_FORMS and ko != kb and tolerant:
+            ctx.known_or_violation("nounset_array_length_tolerated",
+                                   "under `set -u` brush accepts an expansion that bash rejects as unbound", case)
+        elif f in ELEM_LEN_FORMS and st.startswith("unset/") and kb[:2] == (True, False) and ko[:2] == (False, True):
             ctx.known_or_violation("nounset_element_length_of_unset_is_fatal",
                                    "`${#v[0]}` of an unset variable ends the shell; bash reports the error, abandons the command and goes on", case)
-        elif f == "${!v}" and st.startswith("unset/") and kb[:2] == (True, False) and ko[:2] == (False, True):
+        elif f in INDIRECT_VALUE_FORMS and st.startswith("unset/") and kb[:2] == (True, False) and ko[:2] == (False, True):
             ctx.known_or_violation("nounset_indirect_of_unset_is_fatal",
                                    "`${!v}` with v unset ends the shell; bash reports the error, abandons the command and goes on", case)
         elif f == "let v+1" and tolerant:
@@ -217,7 +337,14 @@ def nounset(ctx):
                                    "`let` with an unset variable under `set -u` only fails; bash ends the shell", case)
         else:
             ctx.violation("`set -u`: brush and bash disagree on whether the expansion aborts the shell", case)
-    ctx.sample({"nounset_case": cases[0][3]})
+    ctx.sample({"nounset_case": cases[0][3], "request": cases[0][4]})
+    ctx.cov["rule"] += ("; nounset decision table: %d expansion forms + %d arithmetic commands x 9 variable states x 3 placements (same line, "
+                        "next line, inside a function) + positional forms with one argument, each sent as a script file to brush and bash "
+                        "and as a `nounset` request to the Lean driver (model of brush's decision vs brush, bash reference vs bash)"
+                        % (len(FORMS), len(STMT_FORMS)))
+    ctx.cov["rule"] += ("; the forms of the recorded clauses C03-10..17 run in all three placements in every state; of these, %s are outside "
+                        "the Lean model and are compared brush vs bash only, and for %s the model is compared with brush but the bash "
+                        "reference is not (not established there)" % (", ".join(sorted(NO_MODEL_FORMS)), ", ".join(sorted(NO_SPEC_FORMS))))
 
 
 def replay(ctx, rp):
@@ -231,5 +358,7 @@ def replay(ctx, rp):
     print("bash: ", canon(o))
     if "wire" in case:
         print("model:", lib.run_drv(["C03 " + case["wire"]])[0])
+    if "nswire" in case:
+        print("model | reference:", lib.run_drv(["C03 " + case["nswire"]])[0])
     same = (canon(b) == canon(o)) if "form" not in case else ((b["rc"] != 0, "after" in b["out"]) == (o["rc"] != 0, "after" in o["out"]))
     return 0 if same else 1
